@@ -1,4 +1,5 @@
 import Proofs.Total
+import Proofs.Alloc
 /-
   C04 — Decoding arbitrary bytes is total: value or error, never crash, hang or
   read outside the input.  Property theorems only; helper lemmas live in
@@ -71,7 +72,7 @@ the theorem is neither vacuous nor trivially "always err". -/
 example : exTy.wf ∧ Shape exTy exTy.zero
     ∧ (unmarshal exTy [0x08, 0x02, 0x12, 0x01, 0x41, 0x32, 0x02, 0x01, 0x03] exTy.zero).isOk = true
     ∧ (unmarshal exTy [0x08, 0x80] exTy.zero).isErr = true :=
-  ⟨by simp [exTy, Ty.wf, fieldsWf, validWidth, Ty.wt, Ty.isMap], shape_zero _, by decide, by decide⟩
+  ⟨by simp [exTy, Ty.wf, fieldsWf, validWidth, Ty.wt, Ty.isMap, Ty.isProtoSlice], shape_zero _, by decide, by decide⟩
 
 /-! ### stretch (a): steps bound -/
 
@@ -110,6 +111,28 @@ example :
     (unmarshal exTy inp exTy.zero).isOk = true ∧ loopDepth exTy = 4 ∧
     (List.range 4).map (fun l => stepsAt l exTy .len inp exTy.zero) = [9, 15, 3, 0] := by
   decide
+
+/-! ### what a counted container asks the allocator for
+
+The allocation theorems below count what the decode CREATES. The implementation
+also decides how much room to request before it has read anything: until fix
+bbb7821 that was the count the data claims (bounded only by the bytes that
+remain), and nested levels that each claim everything made the request quadratic
+in the input length. It is now `entriesPresent body count` — the number of
+entries whose length prefixes are really there. -/
+
+/-- the capacity a counted slice / map / JSON array requests is at most the count
+it was told and at most the number of bytes of its body. Tied to the code by the
+`entriespresent` ops (the real function, through a verif hook, on hostile and
+well-formed bodies). -/
+theorem capacity_bounded (body : Bytes) (count : Nat) :
+    entriesPresent body count ≤ count ∧ entriesPresent body count ≤ body.length :=
+  ⟨entriesPresent_le_max body count, entriesPresent_le_len body count⟩
+
+-- a body of one entry that covers everything, under a count that claims five: room for one
+example : entriesPresent [4, 9, 9, 9, 9] 5 = 1 := by decide
+-- three empty entries and a truncated fourth
+example : entriesPresent [0, 0, 0, 7, 1] 10 = 3 := by decide
 
 /-! ### stretch (b): allocation bound
 
